@@ -444,7 +444,9 @@ Print Assumptions restart_keeps_every_licence.
     whole prefix, no break) by AllLightNodeClientLicenses only, whose callers are the genesis
     export, the licences query and the legacy import; the only page request in x/paloma is the one
     the legacy import passes to x/feegrant.  Round 5: the signature-authorisation decorator keeps nothing
-    from one message to the next: all it decides with is declared inside its loop over the messages. *)
+    from one message to the next: all it decides with is declared inside its loop over the messages.
+    Round 6: flattenMsgs is the recursive walk that refuses (returns an error for) a transaction nested
+    deeper than maxNestedMsgDepth = 6 (recognised by C03's translator; any other shape stops the check). *)
 Theorem model_is_of_current_source_round3 :
   Gen.C18.licence_store_users = ["AllLightNodeClientLicenses:IterAll"; "CreateLightNodeClientAccount:Delete";
                                  "GetLightNodeClientLicense:Load"; "SetLightNodeClientLicense:Save"]%string /\
@@ -455,7 +457,8 @@ Theorem model_is_of_current_source_round3 :
   Gen.C18.iterallfnc_breaks = 0 /\ Gen.C18.iterallfnc_calls = ["Iterator"]%string /\
   Gen.C18.ante_declared_before_loop = ["msgs"; "err"]%string /\
   Gen.C18.ante_declared_per_message = ["m"; "ok"; "creator"; "signers"; "signedByCreator"; "grants"; "err";
-                                       "grantsLkUp"; "grantees"; "v"; "found"]%string.
+                                       "grantsLkUp"; "grantees"; "v"; "found"]%string /\
+  Gen.C18.max_nested_depth = 6.
 Proof. exact source_round3. Qed.
 Print Assumptions model_is_of_current_source_round3.
 
@@ -463,13 +466,15 @@ Print Assumptions model_is_of_current_source_round3.
     decorator of x/paloma/ante.go on the state before the transaction (EVERY message with metadata
     needs its creator among its signers, or a signer holding a fee allowance from the creator), then the
     messages in order on a branch written back only if all succeed.  [tm_signers m]: the signatures the
-    transaction carries for message m (SDK signature verification, trusted).  [hop] = extended
+    transaction carries for message m (SDK signature verification, trusted); [tm_nest m]: the number of
+    authz.MsgExec (grantee = that signer) the message is wrapped in — nested messages are checked like
+    top-level ones, nesting beyond maxNestedMsgDepth refuses the whole transaction.  [hop] = extended
     operation or transaction.  A transaction changes nothing, or is its plain operations run in order
     with every message authorised ... *)
 Theorem transaction_all_or_nothing : forall (s : state) (ms : list tmsg),
   (fst (deliver_tx s ms) = s /\ snd (deliver_tx s ms) <> Ok) \/
   (snd (deliver_tx s ms) = Ok /\ fst (deliver_tx s ms) = run s (tx_ops ms) /\
-   forall m, In m ms -> authorised s m = Ok).
+   forall m, In m ms -> authorised s m = Ok /\ tm_nest m <= Gen.C18.max_nested_depth).
 Proof. exact deliver_tx_cases. Qed.
 Print Assumptions transaction_all_or_nothing.
 
